@@ -108,13 +108,12 @@ Definition lam_ok (ll : list obj) (doc : string) (body : list obj) : bool :=
   && (negb (doc =? "") || match body with Str _ :: _ :: _ => false | _ => true end)
   && ((doc =? "") || negb (match body with [] => true | _ => false end)).
 
-(* the guard, for a value nested inside another *)
+(* the guard, for a value nested inside another (an element) *)
 Fixpoint loadable_in (v : obj) : bool :=
   match v with
   | Nil | T | Fix _ | Str _ | Big _ => true
   | Atom k tok => atom_ok k tok
-  | Sym s => (is_keyword s && plain_sym s)      (* any other symbol would have to be quoted [C19-symbol-unquoted] *)
-             || existsb (String.eqb s) self_bound   (* ... unless it is a constant bound to itself *)
+  | Sym s => plain_sym s                      (* an element: a keyword stands for itself, any other symbol is quoted *)
   | L xs => negb (match xs with [] => true | _ => false end) && forallb loadable_in xs
   | Dot xs tl => negb (match xs with [] => true | _ => false end) && forallb loadable_in xs && loadable_in tl
                  && match tl with Nil | L _ | Dot _ _ => false | _ => true end
@@ -138,6 +137,9 @@ Fixpoint loadable_in (v : obj) : bool :=
 Definition loadable (v : obj) : bool :=
   match v with
   | Lam ll doc body => lam_ok ll doc body && doc_ok doc
+  (* a symbol on its own: Symbol.LoadForm is the symbol (make-load-form of a symbol is about what it names); it
+     evaluates to itself only when it is a keyword or a constant bound to itself *)
+  | Sym s => (is_keyword s && plain_sym s) || existsb (String.eqb s) self_bound
   | _ => loadable_in v
   end.
 
